@@ -9,7 +9,7 @@ def check(run):
                ("A3-builtin", n, "A3", "OpsBuiltin"), ("A4-extended", n, "A4", "OpsExtended"), ("A5-builtin", n, "A5", "OpsBuiltin")]
     if thorough:
         configs += [("A1-extended", 5, "A1", "OpsExtended"), ("A2-extended", 5, "A2", "OpsExtended")]
-    run.rules.append("leg M/R: every input of <= %d characters over five 14-character alphabets (1-4 byte characters, every character class, Unicode white space the engine treats as name characters) "
+    run.rules.append("leg M/R: every input of <= %d characters over five 14-character alphabets (1-4 byte characters, every character class, Unicode white space the engine treats as name characters, both quote characters together) "
                      "under the built-in and an extended operator set, enumerated by TLC from the Lexer machine, all Lexer invariants in every state, "
                      "each complete behaviour replayed through the real tokenizer; non-trivial = at least two tokens or a lexical error" % n)
     run.rules.append("leg T: random UTF-8 inputs (biased to the classes the tokenizer distinguishes) tokenized by the real code and validated by TLC against the Lexer machine")
